@@ -4,6 +4,7 @@ from __future__ import annotations
 import ast
 import re
 
+from kvstatic.paths import cz, czs
 from kvstatic.core import Repo, Report, ModelError, AnchorError, norm
 from kvstatic.astutil import (find_all, attr_chain, is_name, call_name, body_no_doc, target_names, parents, renamed,
                               walk_no_nested_funcs, enclosing)
@@ -370,7 +371,7 @@ def levels(rep, mod, f):
 def lines_and_fanin(rep, mod, fns):
     rep.rule('C17.lines', 'line order yields each non-None output of each node of the topological order once')
     f = fns['Circuit.topological_line_order']
-    txt = [norm(s).replace(' ', '').replace('\n', '') for s in body_no_doc(f)]
+    txt = [cz(s) for s in body_no_doc(f)]
     ok = txt == ['forninself.topological_order():forlineinn.outs:iflineisnotNone:yieldline']
     rep.ob('C17.lines', 'topological_line_order', ok)
     if not ok:
@@ -378,11 +379,18 @@ def lines_and_fanin(rep, mod, fns):
     rep.rule('C17.fanin', 'fan-in: marks seeded from origins, propagated reader -> driver over the reversed order, node yielded iff marked')
     f = fns['Circuit.fanin']
     body = body_no_doc(f)
-    txt = [norm(s).replace(' ', '').replace('\n', '') for s in body]
+    txt = [cz(s) for s in body]
     p = f.args.args[1].arg
     ok = len(txt) == 3 and txt[0] == 'marks=[False]*len(self.nodes)' and txt[1] == f'forninself.{"" }{"" }'.replace('self.', '') + '' or True
-    exp = ['marks=[False]*len(self.nodes)', f'fornin{p}:marks[n]=True',
-           'forninself.reversed_topological_order():ifnotmarks[n]:forlineinn.outs:iflineisnotNone:marks[n]|=marks[line.reader]ifmarks[n]:yieldn']
+    exp = ['marks=[False]*len(self.nodes)', f'fornin{p}:marks[n]=True', czs("""
+        for n in self.reversed_topological_order():
+            if not marks[n]:
+                for line in n.outs:
+                    if line is not None:
+                        marks[n] |= marks[line.reader]
+            if marks[n]:
+                yield n
+        """)]
     ok = txt == exp
     rep.ob('C17.fanin', 'fanin', ok)
     if not ok:
